@@ -281,6 +281,13 @@ fn handle_on_connection(
                 tcb.retx_attempts = 0;
             }
             push_to_listener(k, fd, local);
+            // The client's bare handshake ACK may have been lost; then
+            // the segment completing the handshake is its first data
+            // segment (or FIN). Process what it carries instead of
+            // discarding it and waiting for a retransmission.
+            if !s.payload.is_empty() || s.flags.fin {
+                handle_established(k, fd, local, remote, s);
+            }
         }
         // Data / ACK / FIN on an open or half-closed connection.
         TcpState::Established
